@@ -339,6 +339,14 @@ class J1939_21:
             if next_package_number + num_packages > num_packages_all:
                 logger.debug("CTS: Allowed more packets %d than needed to complete transmission %d", num_packages, num_packages_all - next_package_number)
                 num_packages = num_packages_all - next_package_number
+            # never clear more packets than still have to be sent: the send loop only leaves
+            # SENDING_IN_CTS when it reaches the last cleared packet
+            packages_remaining = num_packages_all - self._snd_buffer[buffer_hash]['next_packet_to_send']
+            if num_packages > packages_remaining:
+                num_packages = packages_remaining
+            if num_packages <= 0:
+                # nothing (sensible) has been cleared, keep waiting
+                return
 
             self._snd_buffer[buffer_hash]['next_wait_on_cts'] = self._snd_buffer[buffer_hash]['next_packet_to_send'] + num_packages - 1
 
